@@ -612,6 +612,19 @@ def gen_graph(rng):
     return pkt
 
 
+def longref_packet(last, via_pointer=True):
+    """a PTR whose rdata name is 3 labels of 63 + one of `last` bytes (253 + ... characters around the limit), then a
+    second PTR whose rdata is a pointer to the first one's rdata: exercises the cache entry `_read_name` writes
+    *before* its length test"""
+    owner = b"\x01a\x00"
+    rd1 = (b"\x3f" + b"x" * 63) * 3 + bytes([last]) + b"y" * last + b"\x00"
+    rec1 = owner + struct.pack(">HHIH", 12, 1, 120, len(rd1)) + rd1
+    at = 12 + len(owner) + 10
+    rd2 = struct.pack(">H", 0xC000 | at) if via_pointer else b"\x01z" + struct.pack(">H", 0xC000 | at)
+    rec2 = b"\xc0\x0c" + struct.pack(">HHIH", 12, 1, 120, len(rd2)) + rd2
+    return struct.pack(">HHHHHH", 0, 0x8400, 0, 2, 0, 0) + rec1 + rec2
+
+
 ALPHABET = [0x00, 0x01, 0x3F, 0x40, 0xC0, 0x0C, 0xFF, 0x61]
 HEADERS = [struct.pack(">HHHHHH", 0, 0, 1, 0, 0, 0), struct.pack(">HHHHHH", 0, 0x8400, 0, 1, 0, 0)]
 
@@ -754,58 +767,48 @@ def guard_stream(res, driver_ok):
     res.count("stream:guard", len(lens))
 
 
-def run(ctx):
-    res = C.Result("C02")
-    seed, tier = ctx["seed"], ctx["tier"]
-    rng = C.rng_for(seed, "c02")
-    driver_ok = ctx["driver_ok"]
-    budget = C.Budget(tier, 9000, 300000).n
-    if ctx["widened"]:
-        budget *= 2
-    res.rule = ("datagrams from six streams (corpus; uniform random; wire-built valid messages and messages from the library's encoder, "
-                "plain and mutated by bit flips/truncation/insertion/count- and length-field corruption; pointer graphs: chains up to depth 4000, cycles, "
-                "self/forward references, pointers into rdata, empty-label chains; exhaustive strings over {00,01,3F,40,C0,0C,FF,'a'} behind two fixed headers); "
-                "non-trivial = distinct (outcome, exception, valid, recursion depth, #questions, record kinds, strict-accepted) signature")
-    cases = []  # (stream, bytes)
+def gen_cases(tier, rng, budget, res):
+    """yield (stream, datagram): corpus, the D2 chain family, the exhaustive sub-space, then the random streams"""
     for name, body in C.load_corpus("C02"):
-        cases.append(("corpus:" + name, bytes.fromhex(body["hex"]) if body["hex"] != "-" else b""))
+        yield ("corpus:" + name, bytes.fromhex(body["hex"]) if body["hex"] != "-" else b"")
     # chains: the D2 family (on the repaired tree they stop at the hop bound)
     for d in [0, 1, 2, 3, 126, 127, 128, 129, 130, 131, 200, 600, 870, 1200, 2500, 4000]:
         for fwd in (True, False):
-            cases.append(("chain", chain_packet(d, fwd)))
-            cases.append(("chain", chain_packet(d, fwd, tail=b"\x00")))
-    cases.append(("chain", chain_packet(128, True, tail=b"\x3f" + b"x" * 63 + b"\x00")))
+            yield ("chain", chain_packet(d, fwd))
+            yield ("chain", chain_packet(d, fwd, tail=b"\x00"))
+    yield ("chain", chain_packet(128, True, tail=b"\x3f" + b"x" * 63 + b"\x00"))
+    for last in (57, 58, 59, 60, 61, 62, 63):
+        for via in (True, False):
+            yield ("longref", longref_packet(last, via))
     # exhaustive small strings
-    if tier == "quick":
-        Lq, Lr = (4, 3)
-    else:
-        Lq, Lr = (7, 6)
+    Lq, Lr = (4, 3) if tier == "quick" else (6, 5)
+    n_ex = 0
     for b in exhaustive(Lq, Lr):
-        cases.append(("exhaustive", b))
-    n_ex = len(cases)
-    res.exhaustive = False
-    res.notes.append("exhaustive sub-space: all strings over 8 boundary bytes up to length %d (question header) / %d (record header): %d datagrams" % (Lq, Lr, n_ex))
+        n_ex += 1
+        yield ("exhaustive", b)
+    res.notes.append("exhaustive sub-space: all strings over 8 boundary bytes up to length %d (behind a 1-question header) / %d (behind a 1-record header): %d datagrams"
+                     % (Lq, Lr, n_ex))
     # random streams
-    while len(cases) < n_ex + budget:
+    for _ in range(budget):
         k = rng.random()
         if k < 0.08:
             n = rng.choice([0, 1, 5, 11, 12, 13, 14, 17, 30, 200, 1500, 8966])
             b = bytes(rng.randrange(256) for _ in range(n))
             if n >= 12 and rng.random() < 0.7:
                 b = b[:4] + bytes([0, rng.choice([0, 1, 2]), 0, rng.choice([0, 1, 3]), 0, rng.choice([0, 1]), 0, rng.choice([0, 1])]) + b[12:]
-            cases.append(("random", b))
+            yield ("random", b)
         elif k < 0.3:
             p, w = gen_valid(rng)
-            cases.append(("valid", p))
+            yield ("valid", p)
         elif k < 0.36:
-            cases.append(("outgoing", gen_outgoing(rng)))
+            yield ("outgoing", gen_outgoing(rng))
         elif k < 0.72:
             p, w = gen_valid(rng)
-            cases.append(("mutated", mutate(rng, p, w)))
+            yield ("mutated", mutate(rng, p, w))
         elif k < 0.78:
-            cases.append(("mutated-outgoing", mutate(rng, gen_outgoing(rng))))
+            yield ("mutated-outgoing", mutate(rng, gen_outgoing(rng)))
         else:
-            cases.append(("graph", gen_graph(rng)))
+            yield ("graph", gen_graph(rng))
     # a few large ones
     for _ in range(6 if tier == "quick" else 60):
         w = Wire(rng, 0.8)
@@ -815,12 +818,15 @@ def run(ctx):
             if len(w.b) > 8800:
                 break
         p = w.finish(0, [nrec, 0, 0])[:8966]
-        cases.append(("large", p))
-        cases.append(("large-mutated", mutate(rng, p, w)))
+        yield ("large", p)
+        yield ("large-mutated", mutate(rng, p, w))
 
-    # ---- run the implementation
+
+def process(res, cases, driver_ok, base):
+    """one chunk: run the implementation, the model, the strict decoder and the budget predicate; compare"""
     obs = []
     for i, (stream, b) in enumerate(cases):
+        i += base
         count_reads = (i % 3 == 0) or stream in ("graph", "chain") or stream.startswith("corpus")
         if count_reads:
             o = observe(b, True)
@@ -832,7 +838,6 @@ def run(ctx):
         else:
             o = observe(b, False)
         obs.append(o)
-    # ---- run the model, the strict decoder and the budget predicate
     mlines = slines = blines = [None] * len(cases)
     if driver_ok:
         try:
@@ -855,10 +860,34 @@ def run(ctx):
         # python-only budget: depth and activations per name
         for (stream, b), o in zip(cases, obs):
             if o["depth"] > 129 or o["acts"] > 129 * max(1, o["names"]):
-                res.violate("C02:budget", "recursion depth %d / %d activations for %d names" % (o["depth"], o["acts"], o["names"]), {"hex": C.hx(b)})
+                res.violate("C02:budget", "recursion depth %d / %d activations for %d names" % (o["depth"], o["acts"], o["names"]), {"hex": C.hx(b), "len": len(b)})
+    return driver_ok
+
+
+def run(ctx):
+    res = C.Result("C02")
+    seed, tier = ctx["seed"], ctx["tier"]
+    rng = C.rng_for(seed, "c02")
+    driver_ok = ctx["driver_ok"]
+    budget = C.Budget(tier, 9000, 150000).n
+    if ctx["widened"]:
+        budget *= 2
+    res.rule = ("datagrams from six streams (corpus; uniform random; wire-built valid messages and messages from the library's encoder, "
+                "plain and mutated by bit flips/truncation/insertion/count- and length-field corruption; pointer graphs: chains up to depth 4000, cycles, "
+                "self/forward references, pointers into rdata, empty-label chains; exhaustive strings over {00,01,3F,40,C0,0C,FF,'a'} behind two fixed headers); "
+                "non-trivial = distinct (outcome, exception, valid, recursion depth, #questions, record kinds, strict-accepted) signature")
+    chunk, base = [], 0
+    for case in gen_cases(tier, rng, budget, res):
+        chunk.append(case)
+        if len(chunk) >= 20000:
+            driver_ok = process(res, chunk, driver_ok, base)
+            base += len(chunk)
+            chunk = []
+    if chunk:
+        driver_ok = process(res, chunk, driver_ok, base)
     utf8_stream(res, rng, tier, driver_ok)
     guard_stream(res, driver_ok)
-    # keep one (the shortest) witness per violation signature first, so that the replay is the smallest
+    # report an escaping exception before anything else, and the shortest witness of each signature first
     res.violations.sort(key=lambda v: (0 if v["sig"].startswith("C02:escape") else 1, v["sig"], v["case"].get("len", 0)))
     return res
 
